@@ -159,7 +159,21 @@ func Explain(program *analysis.ProgramInfo, store factstore.ReadOnlyFactStore, g
 		onStack: make(map[uint64]bool),
 		ruleIDs: make(map[int]string),
 	}
-	proofs := e.explain(goal, 0)
+	// A goal that fails while another goal is being proved may have failed
+	// only because of the cycle cut. Such failures are remembered for one
+	// pass (that keeps a pass polynomial), proofs are kept for good. Every
+	// pass that does not prove the goal but proves some other fact is
+	// followed by another one; the number of passes is bounded by the number
+	// of facts.
+	var proofs []*ProofNode
+	for {
+		e.failed = make(map[uint64]bool)
+		proved := len(e.cache)
+		proofs = e.explain(goal, 0)
+		if len(proofs) > 0 || len(e.cache) == proved {
+			break
+		}
+	}
 	if len(proofs) == 0 {
 		return nil, ErrNoProof
 	}
@@ -175,6 +189,8 @@ type explainer struct {
 	cache map[uint64][]*ProofNode
 	// onStack tracks goals currently being proved to break cycles.
 	onStack map[uint64]bool
+	// failed holds the goals for which the current pass found no proof.
+	failed map[uint64]bool
 	// ruleIDs memoizes content-addressed rule IDs keyed by index in program.Rules.
 	ruleIDs map[int]string
 }
@@ -187,12 +203,18 @@ func (e *explainer) explain(goal ast.Atom, depth int) []*ProofNode {
 	if cached, ok := e.cache[h]; ok {
 		return cached
 	}
-	if e.onStack[h] {
+	if e.onStack[h] || e.failed[h] {
 		return nil
 	}
 	e.onStack[h] = true
 	defer delete(e.onStack, h)
 
+	// Only the first proof of a premise is ever used; alternatives are
+	// wanted for the goal of the query alone.
+	maxProofs := e.opts.MaxProofs
+	if depth > 0 {
+		maxProofs = 1
+	}
 	var proofs []*ProofNode
 
 	if (e.isEDB(goal.Predicate) || e.isInitialFact(goal)) && e.store.Contains(goal) {
@@ -204,7 +226,7 @@ func (e *explainer) explain(goal ast.Atom, depth int) []*ProofNode {
 	}
 
 	for ruleIdx, rule := range e.program.Rules {
-		if len(proofs) >= e.opts.MaxProofs {
+		if len(proofs) >= maxProofs {
 			break
 		}
 		if rule.Head.Predicate != goal.Predicate {
@@ -219,9 +241,9 @@ func (e *explainer) explain(goal ast.Atom, depth int) []*ProofNode {
 		if err != nil {
 			continue
 		}
-		remaining := e.opts.MaxProofs - len(proofs)
+		remaining := maxProofs - len(proofs)
 		for _, sol := range e.solveBody(rulePremises, headUF, depth, remaining) {
-			if len(proofs) >= e.opts.MaxProofs {
+			if len(proofs) >= maxProofs {
 				break
 			}
 			proof, ok := e.buildProof(&e.program.Rules[ruleIdx], ruleIdx, rule, goal, sol, depth)
@@ -232,7 +254,13 @@ func (e *explainer) explain(goal ast.Atom, depth int) []*ProofNode {
 		}
 	}
 
-	e.cache[h] = proofs
+	if len(proofs) > 0 {
+		e.cache[h] = proofs
+	} else {
+		// An empty result may be due to a cycle cut higher up the stack. It
+		// holds for the rest of this pass only; see Explain.
+		e.failed[h] = true
+	}
 	return proofs
 }
 
